@@ -344,6 +344,7 @@ namespace hv
             const auto &a = s.args;
             if (s.op == "RET") { if (ret) *ret = get(a.at(0)); return; }
             if (s.op == "src") { put(s.dst, wire<VSrc>(w, uid, Int{s.kwi("mode")}, Int{s.kwi("rel")})); return; }
+            if (s.op == "beacon") { wire<VBeacon>(w, uid, Int{s.kwi("period", 1)}, Int{s.kwi("count", 1)}); return; }
             if (s.op == "ticker") { put(s.dst, wire<VTicker>(w, uid, Int{s.kwi("period", 1)}, Int{s.kwi("count", 1)})); return; }
             if (s.op == "const") { put(s.dst, wire<stdlib::const_, TS<Int>>(w, Int{s.kwi("v")})); return; }
             if (s.op == "pass") { put(s.dst, wire<VPass>(w, pi(a.at(0)), uid)); return; }
